@@ -121,504 +121,637 @@ asx
 } // c
 ,}
 ")).
-Eval vm_compute in ("<<<M264>>>" ++ check (runes_of_ascii "root packet u8x
-    {
-    // trailing space 
-    repeat u64 Pad
-    , i64_ @calculatedFrom(
-""x y"" /// triple
-) `100% of %d`
-// @lengthOf(
-// a // b
-, @calculatedFrom(
-""a	b"" ) @lengthOf( Header ) @lengthOf( zchar ) i32
-    A @lengthOf( falsey)//x
-,	repeat zchar[// a // b
-10 ]
-f32a  `
-` ,  repeat
-    f64
-rootA
-    `line1
-line2`
-, // packet A { u8 x, }
-match string_
-    as
-    o { 65535 : // a // b
-options1 ,
-// a // b
-// " ++ [128512]%N ++ runes_of_ascii " emoji
-""// no comment"": packetx ""\" ++ [233]%N ++ runes_of_ascii """
-// c
-//x
-: lengthOf, 65535 :
-BodyLength ,
-""packet"":
-a1
-, }
-    , @tag(
-4294967296) @tag( 7
-    )@rightPad (	'\x00'
-    )
-    repeat uint64 i8i8 , char[
-    42 ]string_
-`// not a comment` , } MetaData pack
-    {x o
-    `two words` , x As,uint64 BodyLength
-    `// not a comment`,x a1`` , T
-int
-`it's` ,
-} MetaData falsey
-// a // b
-// 50% %s
-{ Header BodyLength `` , }root packet trueish {i16 // @lengthOf(
-trueish	@calculatedFrom( ""`tick`"")`line1
-line2`
-, f64 As ,string T	@lengthOf(
-    pack )	`100% of %d` , @lengthOf(
-    matchKey )repeat // " ++ [128512]%N ++ runes_of_ascii " emoji
-char[ 00 ]
-    lengthOf
-// packet A { u8 x, }
-// c
-`line1
-line2` , zchar[ 3 ]_x @calculatedFrom(
-""`tick`"" )
-    // " ++ [128512]%N ++ runes_of_ascii " emoji
-    ,
-// " ++ [27880; 37322]%N ++ runes_of_ascii "
-// trailing space 
-@tag( 00) //	t
-zchar[4294967296
-]  msg_type , repeat body,
-Logon , @tag( 1
-    ) @calculatedFrom( ""packet"")
-zchar[ 3 ] Z9_ , }
-")).
-Eval vm_compute in ("<<<M1879>>>" ++ check (runes_of_ascii "packet A {
-    @rightPad(
-        ' '
-        )
-    // trailing space 
-    zchar[42] MetaDataX,
-    repeat int32 Logon,
-    leftPad string_,
-    @calculatedFrom(""packet"")
-    char[3] Logon `{ , }`,
-    match crc as _x {
-        65535 : float,
-        00 : BodyLength,
-        [
-            """ ++ [128512]%N ++ runes_of_ascii """, ""a\\"", ""a\""b"", ""// no comment"", ""\n"",
-            255
-        ] : MetaDataX,
-        0 : u8x,
-    },
-}
-
-options {
-    zchar = false;
-    i64_ = zchar[7];
-    BodyLength = ""1""
-    i8i8 = true;
-    _x = ""// no comment"";
-}
-
-packet crc {
-    match As as zchar {
-        0 : leftPad,
-        [
-            0, 255, """ ++ [233]%N ++ runes_of_ascii "t" ++ [233]%N ++ runes_of_ascii """, ""x y"", ""`tick`"",
-            4294967296, """ ++ [233]%N ++ runes_of_ascii "t" ++ [233]%N ++ runes_of_ascii """, """"
-        ] : stringy,
-        [
-            0, ""{,}"", ""packet"", 3, 65535,
-            42, ""packet"", 0
-        ] : A,
-        00 : x,
-    },
-    @tag(42)
-    match chars as x {
-        [""packet"", 65535] : T,
-        """ ++ [28040; 24687]%N ++ runes_of_ascii """ : float,
-        """ ++ [28040; 24687]%N ++ runes_of_ascii """ : packetx,
-        0 : trueish,
-        """ ++ [128512]%N ++ runes_of_ascii """ : pack,
-    },// packet A { u8 x, }
-    @calculatedFrom(""abc"")
-    stringy pack,
-}
-
-packet msg_type {
-}")).
-Eval vm_compute in ("<<<M1422>>>" ++ check (runes_of_ascii "options { LittleEndian
-    =
-
-true
-; StringPrefixLenType =u8
-	;  ArrayPrefixLenType = u8
-    ; FixedStringPadFromLeft=
-
-    true; FixedStringPadChar =  '0' ; }packet
-	Logon { repeat
-	i8
-Ref	, @rightPad 
-( '0'
-) 
-char[
-
-8
-
-    ] msgKind,
-repeat 
-InOrderid72
-{
-
-u8
-Side2 ,	uint32	Qty  ,repeat	InPrice27 {
-    repeat
-    char[ 4
-
-    ] 
-Acct
+Eval vm_compute in ("<<<M88>>>" ++ check (runes_of_ascii "  packet falsey {
+    @leftPad	( )  int8 uint8x
+, zchar[ 10 ] matchKey
 ,
-
-u64 sym
-
-,  }  ,zchar[ 4 
-]  clOrdID,int16	lastPx ,InAcct22{ repeat
-char[
-	3
-
-    ] OrderId , } ,
-
-} 
-,int64
-
-Px,
-
-}
-
-    packet 
-Fill {
-    uint16 Qty
-,
-repeat
-	char[	1
-    ]  Flags
-
-    ,
-    i8
-Ref 
-,}  packet
-	Logout
-
-    {@leftPad
-(
-'0'	)	char[ 3
-	]
-	x
-,
-	int8
-
-    f1	,
-	Logon
-,
-uint16 venue 
-,
-zchar[2
-
-]Px	,
-
-}
-packet  Reject
-{	}
-	root
-    packet  Leg 
-{
-
-Fill , u16 msgKind,
-    match
-msgKind as	Body  {
-	[
-	182
-
-    ,
-
-    83]
-    :
-Fill  , 199 :	Reject,
-
-    137  :Logout,35:Logon
-,} , u32
-lastPx
-    @calculatedFrom(	""CRC32""  ) 
-,
-}
-
-")).
-Eval vm_compute in ("<<<M163>>>" ++ check (runes_of_ascii "packet i8i8 {
-// trailing space 
-// " ++ [27880; 37322]%N ++ runes_of_ascii "
-MetaDataX @lengthOf( chars) `" ++ [233]%N ++ runes_of_ascii "` , // 50% %s
-char[]	u128@lengthOf( u8x ) , @lengthOf(
-T )
-float64 repeatCount ,
-    @tag( 00 )
-    MetaDataX ,
-// a // b
-// trailing space 
-uint64 chars
-    `tab	here` , string_/// triple
-@lengthOf( As
-    )	`` //
-, zchar[
-00 ] asx@lengthOf( /// triple
-metadata
-)
-    `line1
-line2` ,
-@lengthOf(	charz )
-charz
-f32a
-`" ++ [28040; 24687; 31867; 22411]%N ++ runes_of_ascii "` , @rightPad(	'\x00'
-)repeat BodyLength tag , } packet
-repeatCount {
-crc stringy ,}options
-{ zchar = char[]/// triple
-;
-    options1 = false repeatCount
-=""a	b"" body = ""`tick`""}
-// a // b
-//x
-MetaData MetaDataX
-{ Pad repeatCount `u8 x,`
-,
-char[ 42 ] f32a ``
-    , _x	Z9_  ,
-} packet
-Logon { @tag( 007 ) o {
-char
-Packet
-    @lengthOf( repeatCount )
-    //
-    ,} , } // a // b")).
-Eval vm_compute in ("<<<M1641>>>" ++ check (runes_of_ascii "packet crc {
-    // a // b
-    @tag(4294967296)
-    @leftPad('\x00'  )
-    repeat zchar[4294967296] Packet,
-    @leftPad( '0')
-    @tag(3)
-    @tag(7)
-    repeat matchKey {
-        u32 u,
-    },
-    @lengthOf(chars)
-    /// triple
-    @calculatedFrom(""a	b"")
-    @tag(0123456789)
-    zchar[255] Pad,
-    repeat uint64 u128 `two words`,
-    @calculatedFrom(""abc"")
-    i8 packetx,
-    string lengthOf,// " ++ [27880; 37322]%N ++ runes_of_ascii "
-}
-
-root packet stringy {
-    @leftPad(
-        '0' )
-    matchKey roots,
-    // @lengthOf(
-    // trailing space 
-    @tag(7)
-    int8 A @lengthOf(repeatCount) `{ , }`,
-    repeat u {
-        // " ++ [27880; 37322]%N ++ runes_of_ascii "
-        int16 Foo `it's`,
-        string u,
-    },
-}// @lengthOf(")).
-Eval vm_compute in ("<<<M107>>>" ++ check (runes_of_ascii "  MetaData As { }
-packet// 50% %s
-rootA {
-    zchar[ 4294967296	]  uint8x, @calculatedFrom( ""`tick`"") f64 asx	@calculatedFrom(""a\""b""
-), @leftPad('\x00'
-    // trailing space 
-    )// @lengthOf(
-@calculatedFrom(""1""	)
-    @lengthOf( stringy // " ++ [128512]%N ++ runes_of_ascii " emoji
-)repeat float falsey `say ""hi""` , repeat // @lengthOf(
-i64 A  ,
-    // a // b
-    @leftPad // trailing space 
-( ' ') @calculatedFrom( ""it's"" )
-chars	{  repeat char[] rootA ,  } , } packet roots{ @calculatedFrom( ""x y"")
-@lengthOf( crc ) u8 tag ,} MetaData
-    body // trailing space 
-{
-T	msg_type , _x
-Logon `two words`
-,
-    }
-")).
-Eval vm_compute in ("<<<M1888>>>" ++ check (runes_of_ascii "root packet matchKey {
-}
-
-MetaData u {
-}
-
-packet zchar {
-    uint32 Z9_ @lengthOf(A) `" ++ [233]%N ++ runes_of_ascii "`,
-    @calculatedFrom(""packet"")
-    @tag(0123456789)
-    Header @calculatedFrom(""1"") `say ""hi""`,
-    @lengthOf(repeatCount)
-    u8 stringy @lengthOf(x),
-    string string_ @calculatedFrom(""{,}""),
-    zchar[4294967296] tag,
-    char[] trueish @calculatedFrom(""`tick`"") `doc`,
-    float32 repeatCount @lengthOf(charz) `" ++ [233]%N ++ runes_of_ascii "`,
-    @rightPad( )
-    repeat f64 lengthOf `tab	here`,
-    @rightPad( '0' )
-    @calculatedFrom(""a\""b"")
-    roots,
-}")).
-Eval vm_compute in ("<<<M315>>>" ++ check (runes_of_ascii "root packet float  {  repeat
-calculatedFrom
-metadata`say ""hi""` , Pad
-{ // " ++ [27880; 37322]%N ++ runes_of_ascii "
-repeat string o `" ++ [233]%N ++ runes_of_ascii "`
-    ,
-match string_ //	t
-as	u8x{// trailing space 
-[ ""abc""] :
-pack ,  [
-    ""a	b"" ]
-: // `tick` ""quote"" 'q'
-len 00
-: x  [ ""packet""  ] : uint8x
-    , [
-    ""abc"" , """"
-    //	t
-    ,""{,}"", 0123456789,
-""`tick`"", """ ++ [28040; 24687]%N ++ runes_of_ascii """
-    ]://
-Foo ,	}, f64
-a1
     // c
-    `doc`
-, }
-, char[]	Pad `{ , }`  , } root packet a1 { repeat i64_ stringy	, // 50% %s
-}
-MetaData Packet {int32 tag , }")).
-Eval vm_compute in ("<<<M1789>>>" ++ check (runes_of_ascii "packet 
-Frame
-    {
-
-    u8
-HK , u8
-    BK	,
-
-u8 TK ,
-	match
-HK  as Hdr
-    { 
-1 
+    repeat matchKey{ repeat
+i8
+matchKey
+,
+a1 @calculatedFrom( //
+""\n"" ) `two words` ,  } ,a1 { char[]a1, char x_y_z
+    // @lengthOf(
+    ,	zchar[
+65535
+] // a // b
+len`u8 x,`
+,},repeat	MetaDataX
+{	repeat
+leftPad pack,	string i8i8 `say ""hi""` , }// 50% %s
+,
+// " ++ [27880; 37322]%N ++ runes_of_ascii "
+// @lengthOf(
+@leftPad //x
+( '0' ) @lengthOf( BodyLength ) @rightPad
+    ( ' ' // 50% %s
+)
+    char[] // " ++ [128512]%N ++ runes_of_ascii " emoji
+charz , @lengthOf( i8i8
+    ) @calculatedFrom( ""CRC32"" )
+    @lengthOf(	T )metadata ,// 50% %s
+} packet x	{
+@tag( 0123456789	) match tag
+    as Pad { [//x
+""\" ++ [233]%N ++ runes_of_ascii """ , ""a	b""
+    , // " ++ [27880; 37322]%N ++ runes_of_ascii "
+""a\\"", ""{,}"" , 007,  007 ,  0123456789
+    ] // c
 :
+    options1
+    ,	},
+    @leftPad () @lengthOf( charz )
+@tag(
+42  )
+o { i32 msg_type @lengthOf(// `tick` ""quote"" 'q'
+A )
+`` ,
+zchar[
+1 ] charz
+//	t
+//x
+,i8 //x
+packetx `tab	here` ,
+repeat crc rootA , }
+, //	t
+repeat uint8x
+asx
+,
+repeat char[] Foo
+, repeat zchar[ 0123456789
+] u128,
+    match uint8x as _x{ ""packet"" :f32a ,
+    255 :roots ,	[  """ ++ [28040; 24687]%N ++ runes_of_ascii """
+    ,0123456789 ,""CRC32""
+    , 0 , 1 , 255 ]
+:
+    // @lengthOf(
+    Packet,
+""`tick`"" // packet A { u8 x, }
+:
+    metadata ,""x y""
+:rootA}, _x @lengthOf(	crc
+    ), @lengthOf( Logon ) repeat Packet options1, match trueish as
+    lengthOf { 65535: float , } , @tag(
+65535 ) lengthOf @lengthOf(// `tick` ""quote"" 'q'
+a1
+) `tab	here` , }
+")).
+Eval vm_compute in ("<<<M37>>>" ++ check (runes_of_ascii "options {
+packetx/// triple
+= 42; }
+    root packet falsey {@tag( 1 )
+crc { repeat	char[ 007 ] charz // 50% %s
+`it's` , repeat	u8
+    len `
+`
+    , crc trueish	, }	, match
+float as string_ {""x y"" :
+// " ++ [27880; 37322]%N ++ runes_of_ascii "
+//
+zchar , """ ++ [128512]%N ++ runes_of_ascii """
+    // " ++ [128512]%N ++ runes_of_ascii " emoji
+    : string_
+// trailing space 
+// @lengthOf(
+,""CRC32""  : options1
+, [""1"" // c
+] :
+crc
+    , ""packet"" // " ++ [27880; 37322]%N ++ runes_of_ascii "
+: options1 ,  [ 42
+, ""a	b""
+,
+    // trailing space 
+    """ ++ [233]%N ++ runes_of_ascii "t" ++ [233]%N ++ runes_of_ascii """ /// triple
+, ""abc""
+,0123456789, ""{,}""
+, // trailing space 
+00	,""" ++ [233]%N ++ runes_of_ascii "t" ++ [233]%N ++ runes_of_ascii """ // packet A { u8 x, }
+]:	asx },repeat  f64	charz
+, @tag( 10 ) repeat charz
+Logon , @lengthOf( u8x
+) @calculatedFrom( ""a\""b"" )
+    @rightPad // @lengthOf(
+(
+' '
+    ) u8 a1
+`u8 x,` ,	}
+packet	falsey  {
+    repeat
+char[] zchar, @tag( 255 )@calculatedFrom( ""`tick`""
+    )
+char[] asx `say ""hi""`
+    ,
+    u8  As `u8 x,` , // 50% %s
+zchar[00 ]	uint8x @lengthOf( // packet A { u8 x, }
+zchar ) , char[ 255  ]
+uint8x , Pad @lengthOf(
+    // packet A { u8 x, }
+    _x
+    )	`" ++ [233]%N ++ runes_of_ascii "` ,
+    _x,@rightPad (
+    ' ' ) uint16
+BodyLength/// triple
+, @lengthOf( int// " ++ [128512]%N ++ runes_of_ascii " emoji
+) metadata tag , int64	string_ `
+`
+, } root
+packet
+o {} options// packet A { u8 x, }
+{	}
+")).
+Eval vm_compute in ("<<<M1364>>>" ++ check (runes_of_ascii "// top
+options
+    // c0
+{ // c1a
+  // c1b
+LittleEndian
+    // c2
+= // c3
+true // c4a
+  // c4b
+;
+    // c5
+StringPrefixLenType
+    // c6
+= // c7a
+  // c7b
+u32 // c8
+;
+    // c9
+ArrayPrefixLenType // c10a
+  // c10b
+= // c11a
+  // c11b
+u64 // c12a
+  // c12b
+; } // c14
+packet
+    // c15
+Logon // c16a
+  // c16b
+{ // c17a
+  // c17b
+string
+    // c18
+OrderId // c19a
+  // c19b
+, // c20a
+  // c20b
+uint32 lastPx
+    // c22
+,
+    // c23
+repeat // c24
+char[ // c25
+6 ] Side2 // c28
+, // c29a
+  // c29b
+i64 // c30a
+  // c30b
+Tail // c31
+, // c32
+repeat
+    // c33
+i8 // c34
+f1
+    // c35
+, }
+    // c37
+packet // c38a
+  // c38b
+Party // c39
+{ } packet Quote // c43a
+  // c43b
+{ // c44
+repeat // c45
+char[ 6 ] // c48
+clOrdID // c49
+, repeat Logon // c52
+, // c53
+}
+    // c54
+root // c55
+packet
+    // c56
+Order // c57a
+  // c57b
+{
+    // c58
+zchar[ // c59a
+  // c59b
+5 // c60
+]
+    // c61
+Acct ,
+    // c63
+repeat // c64a
+  // c64b
+f64 price ,
+    // c67
+} // c68
+")).
+Eval vm_compute in ("<<<M282>>>" ++ check (runes_of_ascii "// a // b
+root packet	uint8x
+{ repeat x
+    { tag
+@calculatedFrom( ""// no comment""
+)
+`it's`  , }
+,
+    //x
+    A
+//	t
+// @lengthOf(
+@calculatedFrom(// trailing space 
+""abc"") , uint64 zchar,
+//	t
+//	t
+zchar[7 ] msg_type , @calculatedFrom( """ ++ [28040; 24687]%N ++ runes_of_ascii """
+    // " ++ [27880; 37322]%N ++ runes_of_ascii "
+    )
+crc
+,
+    // `tick` ""quote"" 'q'
+    f32a Pad
+,	Header
+// 50% %s
+//x
+, // trailing space 
+zchar[42] x
+@calculatedFrom( ""\n"")`" ++ [28040; 24687; 31867; 22411]%N ++ runes_of_ascii "` , string len
+,
+    } packet
+    falsey {
+    // " ++ [27880; 37322]%N ++ runes_of_ascii "
+    i64_ @calculatedFrom(
+    ""{,}"" ) , repeat
+string chars,
+    // `tick` ""quote"" 'q'
+    zchar[ 7 ] calculatedFrom
+    ,Header
+    { char u
+    `crlf
+line` , repeat char[]	tag `a\` ,
+    Z9_ @lengthOf(T) // " ++ [27880; 37322]%N ++ runes_of_ascii "
+`say ""hi""`
+,
+}
+,
+/// triple
+// " ++ [27880; 37322]%N ++ runes_of_ascii "
+msg_type @calculatedFrom( ""// no comment""
+) ,
+@rightPad( '\x00' ) @lengthOf(
+asx)
+falsey ,
+} // a // b")).
+Eval vm_compute in ("<<<M1197>>>" ++ check (runes_of_ascii "// top
+options
+    // c0
+{ } // c2a
+  // c2b
+MetaData // c3a
+  // c3b
+packetx { int // c6a
+  // c6b
+falsey
+    // c7
+`two words` , // c9
+int32 // c10
+trueish // c11a
+  // c11b
+,
+    // c12
+char[] // c13a
+  // c13b
+u8x , A // c16a
+  // c16b
+x
+    // c17
+`// not a comment` // c18a
+  // c18b
+, // c19
+} // c20a
+  // c20b
+root // c21a
+  // c21b
+packet // c22
+i8i8 { @lengthOf( repeatCount // c26
+) // c27a
+  // c27b
+@tag( // c28
+1 // c29
+) @calculatedFrom(
+    // c31
+""a	b""
+    // c32
+) // c33
+string // c34a
+  // c34b
+stringy // c35
+@calculatedFrom(
+    // c36
+""\n"" // c37a
+  // c37b
+) // c38a
+  // c38b
+`line1
+line2`
+    // c39
+, // c40
+pack // c41
+`100% of %d` // c42
+,
+    // c43
+} // c44
+")).
+Eval vm_compute in ("<<<M1428>>>" ++ check (runes_of_ascii "options{  lengthOf// " ++ [128512]%N ++ runes_of_ascii " emoji
+=// `tick` ""quote"" 'q'
+true
+; string_=""a\\""
 
-HdrA
+    ; }root
+
+    packet	zchar 
+{ string_  // " ++ [27880; 37322]%N ++ runes_of_ascii "
+  	{
+match 
+      //
+    //x
+      x as 
+string_
+
+    { 
+
+    //	t
+
+	0
+:zchar ,
+
+}
 
     ,
-    2
+	}	,@calculatedFrom(
+""CRC32"" )
+	@tag(
+42
 
-:
-	HdrB
-
+    ) 
+repeat char[4294967296
+	] u `say ""hi""`
 , 
-} 
+// 50% %s
+
+@tag(3
+)	@leftPad
+	( 
+' ' 
+)
+	@tag(	// `tick` ""quote"" 'q'
+	42
+
+    )match Header
+    as A
+    { 
+42 : Logon
 ,
+    } ,
+	@tag(	4294967296
+
+    ) i64_ 
+`doc`
+
+, }	root packet	x_y_z { @calculatedFrom(
+""// no comment"" )
+@leftPad( ) @lengthOf(int
+    )  //	t
+	  u8x  `" ++ [28040; 24687; 31867; 22411]%N ++ runes_of_ascii "`, }
+")).
+Eval vm_compute in ("<<<M1305>>>" ++ check (runes_of_ascii "// top
+packet // c0a
+  // c0b
+A
+    // c1
+{ // c2
+u8 // c3a
+  // c3b
+a // c4
+, // c5
+} // c6
+packet
+    // c7
+B
+    // c8
+{
+    // c9
+u16 // c10a
+  // c10b
+b , } root // c14a
+  // c14b
+packet // c15
+P // c16a
+  // c16b
+{ u8 K1
+    // c19
+, // c20
+u8
+    // c21
+K2
+    // c22
+,
+    // c23
 match
-    BK
-
-    as 
-Body
-
-{ 1	: 
-BodyA,
-    2 : BodyB
-	,
-}  ,
-
-    match  TK 
-as Trl {1:	TrlA ,
+    // c24
+K1 as M1 { // c28a
+  // c28b
+1
+    // c29
+:
+    // c30
+A // c31a
+  // c31b
+, } // c33a
+  // c33b
+,
+    // c34
+match
+    // c35
+K2 // c36
+as // c37
+M2 // c38
+{ 1 : B // c42a
+  // c42b
+,
+    // c43
+} // c44a
+  // c44b
+, // c45
 }
-, 
-}
-
-    packet	HdrA
+    // c46
+")).
+Eval vm_compute in ("<<<M1157>>>" ++ check (runes_of_ascii "// top
+MetaData
+    // c0
+msg_type
+    // c1
 {
-	u8
-a ,
+    // c2
+int32
+    // c3
+As
+    // c4
+`crlf
+line`
+    // c5
+,
+    // c6
+MetaDataX
+    // c7
+x
+    // c8
+`a\`
+    // c9
+,
+    // c10
+int8
+    // c11
+_x
+    // c12
+,
+    // c13
+char[]
+    // c14
+As
+    // c15
+`u8 x,`
+    // c16
+,
+    // c17
+zchar[
+    // c18
+3
+    // c19
+]
+    // c20
+uint8x
+    // c21
+,
+    // c22
+As
+    // c23
+Foo
+    // c24
+,
+    // c25
 }
+    // c26
+root
+    // c27
 packet
-	HdrB
-
+    // c28
+repeatCount
+    // c29
 {
-u16
-b
-, }
+    // c30
+}
+    // c31
+")).
+Eval vm_compute in ("<<<M1667>>>" ++ check (runes_of_ascii "
+MetaData
+	body
+    {//x
+    asx As
 
-packet BodyA{
+,  Foo
+	calculatedFrom ``
+,
+packetx pack	`{ , }` ,	// packet A { u8 x, }
+  	u8x
 
-    u32 c  ,
-
+falsey
+    `say ""hi""` ,  float32	float`line1
+line2` 
+,
+    char[] u
+`it's`,
     }
-packet
-BodyB
-	{
+    packet  
+  // a // b
+  asx{ uint32
+pack 
+@calculatedFrom(
+    ""CRC32"" ) `line1
+line2`  ,
+char[ 
+65535/// triple
+]
 
-u64	d
-, }
-	packet TrlA{
-u8 
-e
-, } 
-root packet Msg  {
-Frame
+roots// @lengthOf(
 	,
-u8	x ,  } ")).
-Eval vm_compute in ("<<<M1346>>>" ++ check (runes_of_ascii "packet NewOrder {
-    u32 qty,
+    Z9_
+	zchar// trailing space 
+    ,repeat
+    uint64// 50% %s
+	float `line1
+line2` ,} root
+	packet
+
+options1 {}
+
+")).
+Eval vm_compute in ("<<<M186>>>" ++ check (runes_of_ascii "// @lengthOf(
+packet  Pad{
+    string_ @calculatedFrom( """ ++ [128512]%N ++ runes_of_ascii """ ),
+//	t
+// c
+char[ 255
+] metadata@calculatedFrom( ""1"" )
+// trailing space 
+// 50% %s
+`line1
+line2` ,	@rightPad (
+'0'
+)
+    @lengthOf(metadata ) @tag(
+007 ) repeat char[0
+]MetaDataX, uint8x, @tag(
+0 ) f32 uint8x
+@lengthOf( roots
+    ), repeat Packet
+//x
+// " ++ [27880; 37322]%N ++ runes_of_ascii "
+,MetaDataX `line1
+line2`,
+@lengthOf(int )string len`// not a comment`  , char[ 3 // c
+]
+    Pad, // " ++ [27880; 37322]%N ++ runes_of_ascii "
 }
-packet Cancel {
-    u64 id,
-}
-packet Business {
-    u8 Kind,
-    match Kind as Detail {
-        1 : NewOrder,
-        2 : Cancel,
-    },
-}
-packet TcpFrame {
-    u8 T,
-    match T as Body {
-        1 : Business,
-    },
-}
-packet UdpFrame {
-    u8 U,
-    match U as Body {
-        1 : Business,
-    },
-    Business extra,
-}
-root packet Wire {
-    TcpFrame,
-    UdpFrame,
-}
+")).
+Eval vm_compute in ("<<<M319>>>" ++ check (runes_of_ascii "
+MetaData chars {
+char[]f32a	`" ++ [28040; 24687; 31867; 22411]%N ++ runes_of_ascii "` ,
+zchar[ 255 ] calculatedFrom , // @lengthOf(
+a1
+metadata
+    ,
+    // a // b
+    u i64_ `
+` , A asx `100% of %d` , }
+    // `tick` ""quote"" 'q'
+    MetaData int //x
+{ char[] As
+// 50% %s
+// @lengthOf(
+`// not a comment` , }
+MetaData
+    Header { int16
+charz
+    , uint64 u8x
+    // c
+    ,	string zchar , float64 options1 `// not a comment`,uint64 stringy , }
 ")).
 Eval vm_compute in ("<<<M304>>>" ++ check (runes_of_ascii "  options { }
 root packet chars { @rightPad ('0'	)chars f32a
@@ -632,126 +765,76 @@ root packet chars { @rightPad ('0'	)chars f32a
 @lengthOf(BodyLength), }
 options
 { } MetaData zchar{u64 MetaDataX`// not a comment` ,	} 	 ")).
-Eval vm_compute in ("<<<M196>>>" ++ check (runes_of_ascii "MetaData // 50% %s
-body
-    {
-    Foo Packet `a\` ,T float , int64
-Logon
-`// not a comment`,
-zchar[ 0	]
-i64_/// triple
-`" ++ [28040; 24687; 31867; 22411]%N ++ runes_of_ascii "` , // `tick` ""quote"" 'q'
-char[7 // @lengthOf(
-] calculatedFrom , int16
-Logon
+Eval vm_compute in ("<<<M138>>>" ++ check (runes_of_ascii "packet falsey
+    { repeat f32 msg_type,
+    // `tick` ""quote"" 'q'
+    } options  {	x = false // trailing space 
+;//	t
+A = 0123456789	;
+}packet stringy { u128 int
+// @lengthOf(
+// @lengthOf(
+, } MetaData A { u16 o ,	A u8x
     ,
-} MetaData i64_{ int//
-leftPad
-`// not a comment`
-,
-trueish	Logon
-    , string Header `doc`, // packet A { u8 x, }
-}
-")).
-Eval vm_compute in ("<<<M69>>>" ++ check (runes_of_ascii "// " ++ [27880; 37322]%N ++ runes_of_ascii "
-options
-    { calculatedFrom
-    = '\x00'
-packetx= """ ++ [28040; 24687]%N ++ runes_of_ascii """
-    ;i8i8 = """ ++ [28040; 24687]%N ++ runes_of_ascii """; body =
-    '0' falsey= 10
-} packet o {
-    calculatedFrom
-    {
-    repeat
-// c
-// `tick` ""quote"" 'q'
-zchar[0
-    ] a1 , char[] f32a // trailing space 
-`" ++ [28040; 24687; 31867; 22411]%N ++ runes_of_ascii "`
-//x
-// " ++ [128512]%N ++ runes_of_ascii " emoji
-,
-} ,	} // packet A { u8 x, }")).
-Eval vm_compute in ("<<<M1391>>>" ++ check (runes_of_ascii "options {
-    LittleEndian = true;
-}
-packet Sub {
-    u8 a,
-    @calculatedFrom(""CRC16"") u64 SubSum,
-}
-root packet Frame {
-    u16 MsgType,
-    u16 BodyLen @lengthOf(Body),
-    Sub Body,
-    string note,
-    @calculatedFrom(""CRC16"") u64 Checksum,
-    u8 tail,
-}
-")).
-Eval vm_compute in ("<<<M1333>>>" ++ check (runes_of_ascii "packet
-P1 
-{
-    u8
-a
-    , } packet P2
-	{P1, }
-packet
+string roots , options1 u128 `line1
+line2` ,char[] msg_type
+``
+, roots rootA `{ , }` ,// @lengthOf(
+}")).
+Eval vm_compute in ("<<<M1424>>>" ++ check (runes_of_ascii "
+packet leftPad
 
-P3 { P2
-	, P1 , } packet
-P4 {	repeat
-P3	,  P2 ,
-
-    } root packet
-P5{  P4
-,
-    P3
-, P1
-
-    ,
-
-u8 K	,	match	K as
-
-Body { 4 :
-    P4
+{ @leftPad
+	(' '
+)@calculatedFrom( """ ++ [28040; 24687]%N ++ runes_of_ascii """ ) 
+zchar[ 4294967296	]string_
 	,
+	metadata
 
-3
+{  tag
 
-: P3 ,
-    2 : 
-P2
-	,  1
-:
+@lengthOf(
+body 
+)
 
-    P1 
+`two words`
+    ,}
+    ,
+	@tag( 255
+
+    ) int16 
+asx  @calculatedFrom(  ""a	b"" ) 
+      // `tick` ""quote"" 'q'
+	// `tick` ""quote"" 'q'
+`{ , }` 	 // c
 ,
-},}
+
+} ")).
+Eval vm_compute in ("<<<M1325>>>" ++ check (runes_of_ascii "packet MDSnapshotZZ {
+    u8 a,
+}
+packet OrderACK {
+    u16 b,
+}
+packet HTTPServerInfo {
+    string s,
+}
+root packet FIXMsg {
+    u8 KType,
+    MDSnapshotZZ,
+    repeat OrderACK,
+    match KType as Body {
+        1 : HTTPServerInfo,
+        2 : OrderACK,
+    },
+}
 ")).
-Eval vm_compute in ("<<<M462>>>" ++ check (runes_of_ascii "packet
+Eval vm_compute in ("<<<M437>>>" ++ check (runes_of_ascii "packet
     asx { @calculatedFrom(
 """"  ) @tag( 255 )repeat
 // packet A { u8 x, }
 // trailing space 
-int16 u8x
-,
-@tag(
-    //
-    007 ) )
-    @tag( 0
-    /// triple
-    ) @tag( 1) u
-    @lengthOf( T ),
-// `tick` ""quote"" 'q'
-//x
-} // " ++ [128512]%N ++ runes_of_ascii " emoji")).
-Eval vm_compute in ("<<<M403>>>" ++ check (runes_of_ascii "packet
-    asx { """"
-@calculatedFrom(  ) @tag( 255 )repeat
-// packet A { u8 x, }
-// trailing space 
-int16 u8x
+int16 int16 u8x
 ,
 @tag(
     //
@@ -763,359 +846,335 @@ int16 u8x
 // `tick` ""quote"" 'q'
 //x
 } // " ++ [128512]%N ++ runes_of_ascii " emoji")).
-Eval vm_compute in ("<<<M1285>>>" ++ check (runes_of_ascii "// top
-options // c0a
-  // c0b
-{
-    // c1
-FixedStringPadFromLeft // c2a
-  // c2b
-= // c3a
-  // c3b
-true ; // c5
-}
-    // c6
-root // c7
-packet
-    // c8
-P // c9a
-  // c9b
-{ char[ // c11
-4 // c12
-]
-    // c13
-z , // c15
-} // c16a
-  // c16b
-")).
-Eval vm_compute in ("<<<M1796>>>" ++ check (runes_of_ascii "
-packet
-	uint8x {
-
-    u64 f32a
-@calculatedFrom(
-
-""`tick`"" 
-)
-
+Eval vm_compute in ("<<<M492>>>" ++ check (runes_of_ascii "packet
+    asx { @calculatedFrom(
+""""  ) @tag( 255 )repeat
+// packet A { u8 x, }
+// trailing space 
+int16 u8x
 ,
-	match  tag
-	as
-leftPad 
-{ """ ++ [233]%N ++ runes_of_ascii "t" ++ [233]%N ++ runes_of_ascii """
-	:
-charz  // 50% %s
-	, 
-} ,	@leftPad(	' '	)	int32 x_y_z// a // b
+@tag(
+    //
+    007 )
+    @tag( 0
+    /// triple
+    ) @tag( 1) ) u
+    @lengthOf( T ),
+// `tick` ""quote"" 'q'
+//x
+} // " ++ [128512]%N ++ runes_of_ascii " emoji")).
+Eval vm_compute in ("<<<M438>>>" ++ check (runes_of_ascii "packet
+    asx { @calculatedFrom(
+""""  ) @tag( 255 )repeat
+// packet A { u8 x, }
+// trailing space 
+u8x int16
 ,
+@tag(
+    //
+    007 )
+    @tag( 0
+    /// triple
+    ) @tag( 1) u
+    @lengthOf( T ),
+// `tick` ""quote"" 'q'
+//x
+} // " ++ [128512]%N ++ runes_of_ascii " emoji")).
+Eval vm_compute in ("<<<M446>>>" ++ check (runes_of_ascii "packet
+    asx { @calculatedFrom(
+""""  ) @tag( 255 )repeat
+// packet A { u8 x, }
+// trailing space 
+int16 u8x
+
+@tag(
+    //
+    007 )
+    @tag( 0
+    /// triple
+    ) @tag( 1) u
+    @lengthOf( T ),
+// `tick` ""quote"" 'q'
+//x
+} // " ++ [128512]%N ++ runes_of_ascii " emoji")).
+Eval vm_compute in ("<<<M1773>>>" ++ check (runes_of_ascii "options {
+    i8i8 = ""\n""
+    Header = ""x y"";/// triple
 }
-	options
-	{matchKey
 
-=uint16
-;
-}  // `tick` ""quote"" 'q'
-")).
-Eval vm_compute in ("<<<M1679>>>" ++ check (runes_of_ascii "options {
-    i8i8 = 00
-    matchKey = 4294967296
-    msg_type = ' '
-    metadata = 4294967296
-}//
-
-packet u8x {
-    @tag(4294967296)
-    @leftPad( /// triple
-        '0'  )
-    @tag(1)
-    asx A `// not a comment`,
-}")).
-Eval vm_compute in ("<<<M1336>>>" ++ check (runes_of_ascii "  root
-
-packet
-
-Frame
-
-{
-
-    u8  K
-	,
-
-    Logon
-
-first , match
-
-K as Body
-
-{
-1
-	:
-	Logon,
-	2
-: Logout
-    ,
-}  , } packet
-
-Logon {string user	,
-    }
-
-packet
-
-    Logout
-{u16 reason	,	} ")).
-Eval vm_compute in ("<<<M667>>>" ++ check (runes_of_ascii "MetaData u
-    { } MetaData o
-{ float uint8x
-`100% of %d` ,repeatCount u8x, string_ leftPad
-, i32
-    Foo , int64 x `two words` , calculatedFrom calculatedFrom
-stringy `a\` ,
-}
-")).
-Eval vm_compute in ("<<<M1616>>>" ++ check (runes_of_ascii "
-MetaData
-len { }packet	int
-{
-	repeat 
-char[
-	1
-
-] 
-stringy, } // a // b
-    packet  MetaDataX
-    {
-
-zchar[ 
-10	]leftPad@calculatedFrom(
-
-    ""// no comment"" ) , }
-")).
-Eval vm_compute in ("<<<M597>>>" ++ check (runes_of_ascii "MetaData u
-    { } MetaData o
-{ float uint8x
-`100% of %d` , ,repeatCount u8x, string_ leftPad
-, i32
-    Foo , int64 x `two words` , calculatedFrom
-stringy `a\` ,
-}
-")).
-Eval vm_compute in ("<<<M554>>>" ++ check (runes_of_ascii "MetaData [
-    { } MetaData o
-{ float uint8x
-`100% of %d` ,repeatCount u8x, string_ leftPad
-, i32
-    Foo , int64 x `two words` , calculatedFrom
-stringy `a\` ,
-}
-")).
-Eval vm_compute in ("<<<M250>>>" ++ check (runes_of_ascii "packet _x { @calculatedFrom( ""packet"" ) char[]
-    T
-    `" ++ [28040; 24687; 31867; 22411]%N ++ runes_of_ascii "`
-,@calculatedFrom(
-""" ++ [28040; 24687]%N ++ runes_of_ascii """	) f64
-pack `" ++ [233]%N ++ runes_of_ascii "` , @calculatedFrom(
-""a	b"" ) repeat crc`100% of %d` //
-,
-}
-")).
-Eval vm_compute in ("<<<M706>>>" ++ check (runes_of_ascii "MetaData u
-    { } MetaData o
-{ float x" ++ [178]%N ++ runes_of_ascii "
-`100% of %d` ,repeatCount u8x, string_ leftPad
-, i32
-    Foo , int64 x `two words` , calculatedFrom
-stringy `a\` ,
-}
-")).
-Eval vm_compute in ("<<<M680>>>" ++ check (runes_of_ascii "MetaData u
-    { } MetaData o
-{ float uint8x
-`100% of %d` ,repeatCount u8x, string_ leftPad
-, i32
-    Foo , int64 x `two words` , calculatedFrom
-stringy")).
-Eval vm_compute in ("<<<M675>>>" ++ check (runes_of_ascii "MetaData u
-    { } MetaData o
-{ float uint8x
-`100% of %d` ,repeatCount u8x, string_ leftPad
-, i32
-    Foo , int64 x `two words` , calculatedFrom")).
-Eval vm_compute in ("<<<M119>>>" ++ check (runes_of_ascii "packet len { // " ++ [128512]%N ++ runes_of_ascii " emoji
-Pad,  @tag( //	t
-4294967296 ) @calculatedFrom( ""{,}""
-    ) char[
-0123456789 ] o @calculatedFrom(
-""it's"" ) ,}
-")).
-Eval vm_compute in ("<<<M966>>>" ++ check (runes_of_ascii "packet A {
-    Inner {
-        u8 x `100% of %s %d %v`,
-        Deep {
-            u8 y `100% of %s %d %v`,
-        },
+root packet A {
+    match charz as T {
+        //
+        0 : options1,
+        // `tick` ""quote"" 'q'
     },
+}
+
+packet float {
+    @rightPad()
+    repeat metadata `u8 x,`,
 }")).
-Eval vm_compute in ("<<<M1549>>>" ++ check (runes_of_ascii "  MetaData float
-    { repeatCount	zchar ,
-    charz
-
-a1 
-,
-
-    i64_
-    /// triple
-	string_  , float64	trueish
-
-,}
+Eval vm_compute in ("<<<M117>>>" ++ check (runes_of_ascii "packet a1 { repeat o o
+, i8
+falsey ,
+repeat u64 MetaDataX
+, // trailing space 
+}
+    packet
+    // " ++ [27880; 37322]%N ++ runes_of_ascii "
+    int {	tag @calculatedFrom( ""a\\"" ) ,
+    matchKey , trueish// trailing space 
+options1,
+u64 Logon  , }")).
+Eval vm_compute in ("<<<M294>>>" ++ check (runes_of_ascii "
+options  { Packet =u16 ;
+f32a
+    //
+    =
+""a\""b"" lengthOf= '0'
+; uint8x =
+    i8 uint8x ='\x00'; } packet
+    rootA {
+} options
+{
+uint8x =
+    // a // b
+    ""\" ++ [233]%N ++ runes_of_ascii """ } MetaData Packet {}
 ")).
-Eval vm_compute in ("<<<M1203>>>" ++ check (runes_of_ascii "options // c
-{ } options { MetaDataX = char ; } MetaData Pad { i8 metadata , string stringy , int8 As `{ , }` , }")).
-Eval vm_compute in ("<<<M1235>>>" ++ check (runes_of_ascii "options { } options { MetaDataX = char ; } MetaData Pad { i8 metadata , string // c
-stringy , int8 As `{ , }` , }")).
-Eval vm_compute in ("<<<M908>>>" ++ check (runes_of_ascii "packet A {
-  match k as n {
-    [""a"", 22, ""c c"", 4, ""e"", 66, ""g"", 8, ""i"", 10, ""k"", 12] : B,
-    2 : C
-  },
+Eval vm_compute in ("<<<M1408>>>" ++ check (runes_of_ascii "packet T {
+}
+
+MetaData lengthOf {
+    char[4294967296] a1,
+    float64 body `100% of %d`,
+    asx Foo,
+    u8x pack,
+    zchar[0123456789] Z9_,
+    char As `crlf
+    line`,
 }")).
-Eval vm_compute in ("<<<M273>>>" ++ check (runes_of_ascii "MetaData
-float {
-repeatCount zchar,
-charz
-a1 , i64_
-    /// triple
-    string_	, float64 trueish,	}
-")).
-Eval vm_compute in ("<<<M1280>>>" ++ check (runes_of_ascii "  packet 
-B  {
-u8 a  , string  s ,
-} root packet P
-	{	u16
-L@lengthOf(
-
-    B
-),B 
-,	u8
-
-t
-
-,
-
-}")).
-Eval vm_compute in ("<<<M635>>>" ++ check (runes_of_ascii "MetaData u
+Eval vm_compute in ("<<<M637>>>" ++ check (runes_of_ascii "MetaData u
     { } MetaData o
 { float uint8x
 `100% of %d` ,repeatCount u8x, string_ leftPad
-,")).
-Eval vm_compute in ("<<<M1664>>>" ++ check (runes_of_ascii "packet A {
+, i32
+    Foo Foo , int64 x `two words` , calculatedFrom
+stringy `a\` ,
+}
+")).
+Eval vm_compute in ("<<<M700>>>" ++ check (runes_of_ascii "MetaData u
+    { } MetaData o
+{ float uint8x
+`100% of %d` ,# repeatCount u8x, string_ leftPad
+, i32
+    Foo , int64 x `two words` , calculatedFrom
+stringy `a\` ,
+}
+")).
+Eval vm_compute in ("<<<M614>>>" ++ check (runes_of_ascii "MetaData u
+    { } MetaData o
+{ float uint8x
+`100% of %d` ,repeatCount u8x[ string_ leftPad
+, i32
+    Foo , int64 x `two words` , calculatedFrom
+stringy `a\` ,
+}
+")).
+Eval vm_compute in ("<<<M679>>>" ++ check (runes_of_ascii "MetaData u
+    { } MetaData o
+{ float uint8x
+`100% of %d` ,repeatCount u8x, string_ leftPad
+, i32
+    Foo , int64 x `two words` , calculatedFrom
+stringy i32 ,
+}
+")).
+Eval vm_compute in ("<<<M616>>>" ++ check (runes_of_ascii "MetaData u
+    { } MetaData o
+{ float uint8x
+`100% of %d` ,repeatCount u8x,  leftPad
+, i32
+    Foo , int64 x `two words` , calculatedFrom
+stringy `a\` ,
+}
+")).
+Eval vm_compute in ("<<<M666>>>" ++ check (runes_of_ascii "MetaData u
+    { } MetaData o
+{ float uint8x
+`100% of %d` ,repeatCount u8x, string_ leftPad
+, i32
+    Foo , int64 x `two words` , 
+stringy `a\` ,
+}
+")).
+Eval vm_compute in ("<<<M1510>>>" ++ check (runes_of_ascii "packet A {
     match k as n {
-        [""a"", 22, ""c c"", 4, ""e""] : B,
+        [
+            1, ""bb"", 007, ""d"", 5,
+            ""f"", 7, ""h"", 9
+        ] : B,
         2 : C,
     },
 }")).
-Eval vm_compute in ("<<<M246>>>" ++ check (runes_of_ascii "
-MetaData calculatedFrom {
-x
-    float
-,
+Eval vm_compute in ("<<<M1296>>>" ++ check (runes_of_ascii "// top
+root // c0
+packet P // c2a
+  // c2b
+{ // c3a
+  // c3b
+string
+    // c4
+s // c5a
+  // c5b
+, // c6a
+  // c6b
+} // c7a
+  // c7b
+")).
+Eval vm_compute in ("<<<M252>>>" ++ check (runes_of_ascii "options
+{ zchar = ' ' ;trueish =
+    false ;packetx = 007 // packet A { u8 x, }
+; Logon=	true	Z9_ =
+    zchar[ 7
+    ]	}")).
+Eval vm_compute in ("<<<M959>>>" ++ check (runes_of_ascii "packet A {
+    u16 len @lengthOf(body) `tab
+	x`,
+    u32 crc @calculatedFrom(""CRC32"") `tab
+	x`,
+    string body,
+}")).
+Eval vm_compute in ("<<<M1226>>>" ++ check (runes_of_ascii "options { } options { MetaDataX = char ; } MetaData Pad
+// c
+{ i8 metadata , string stringy , int8 As `{ , }` , }")).
+Eval vm_compute in ("<<<M912>>>" ++ check (runes_of_ascii "packet A {
+  match k as n {
+    [""a"", ""bb"", 007, ""d"", ""e"", 66, ""g"", ""h"", 9, ""j"", ""k"", 12] : B,
+    2 : C
+  },
+}")).
+Eval vm_compute in ("<<<M895>>>" ++ check (runes_of_ascii "packet A {
+  match k as n {
+    [""a"", 22, ""c c"", 4, ""e"", 66, ""g"", 8, ""i"", 10, ""k""] : B,
+    2 : C
+  },
+}")).
+Eval vm_compute in ("<<<M177>>>" ++ check (runes_of_ascii "MetaData
+    matchKey
+    //x
+    {	i64 float `crlf
+line` ,//	t
+leftPad
+asx ,
+uint8x leftPad  ,}
+")).
+Eval vm_compute in ("<<<M903>>>" ++ check (runes_of_ascii "packet A {
+  match k as n {
+    [1, 22, 007, 4, 5, 66, 7, 8, 9, 10, 11, 12] : B
+    2 : C
+  },
+}")).
+Eval vm_compute in ("<<<M840>>>" ++ check (runes_of_ascii "packet A {
+  match k as n {
+    [""a"", ""bb"", ""c c"", ""d"", ""e"", ""f"", ""g""] : B
+    2 : C
+  },
+}")).
+Eval vm_compute in ("<<<M1105>>>" ++ check (runes_of_ascii "packet A { match k as n // a
+ { // b
+ 1 // c
+ : // d
+ B // e
+ , // f
+ } // g
+ , // h
+ }")).
+Eval vm_compute in ("<<<M842>>>" ++ check (runes_of_ascii "packet A {
+  match k as n {
+    [1, ""bb"", 007, ""d"", 5, ""f"", 7] : B
+    2 : C
+  },
+}")).
+Eval vm_compute in ("<<<M359>>>" ++ check (runes_of_ascii "options
+    //
+    { MetaDataX // " ++ [128512]%N ++ runes_of_ascii " emoji
+= false crc = char[]
+// a // b
 //x
-//	t
-T lengthOf
-, }root packet Pad
-{ }
+}")).
+Eval vm_compute in ("<<<M1178>>>" ++ check (runes_of_ascii "// top
+options // c0
+{ // c1
+A // c2
+= // c3
+""// no comment"" // c4
+} // c5
 ")).
-Eval vm_compute in ("<<<M1286>>>" ++ check (runes_of_ascii "
-options{
-	FixedStringPadFromLeft =	true  ; }root 
-packet
-P
-{  char[	4 ]
-z
-	,
-}
-")).
-Eval vm_compute in ("<<<M988>>>" ++ check (runes_of_ascii "packet A {
-    u32 crc @calculatedFrom(""\
-""),
-    @calculatedFrom(""\
-"") u8 y,
-}")).
-Eval vm_compute in ("<<<M809>>>" ++ check (runes_of_ascii "packet A {
-  match k as n {
-    [""a"", ""bb"", 007, ""d""] : B
-    2 : C
-  },
-}")).
-Eval vm_compute in ("<<<M806>>>" ++ check (runes_of_ascii "packet A {
-  match k as n {
-    [1, 22, ""c c"", 4] : B,
-    2 : C
-  },
-}")).
+Eval vm_compute in ("<<<M610>>>" ++ check (runes_of_ascii "MetaData u
+    { } MetaData o
+{ float uint8x
+`100% of %d` ,repeatCount")).
 Eval vm_compute in ("<<<M1291>>>" ++ check (runes_of_ascii "root packet P {
     u16 a,
     u32 Sum @calculatedFrom(""CRC32""),
 }
 ")).
-Eval vm_compute in ("<<<M783>>>" ++ check (runes_of_ascii "packet A {
-  match k as n {
-    [""a"", 22] : B
-    2 : C
-  },
+Eval vm_compute in ("<<<M1645>>>" ++ check (runes_of_ascii "root packet uint8x {
+    string stringy @lengthOf(matchKey),
 }")).
-Eval vm_compute in ("<<<M1450>>>" ++ check (runes_of_ascii "options {
-    a = ""x\
-        y"";
-    b = ""x\
-        y""
+Eval vm_compute in ("<<<M1775>>>" ++ check (runes_of_ascii "root packet P {
+    hdr {
+        u8 a,
+    },
+    u8 x,
 }")).
-Eval vm_compute in ("<<<M1533>>>" ++ check (runes_of_ascii "  MetaData M {
-    u8 x
-	`a
-
-b`
-,  T
-	t
-
-`a
-
-b` ,} ")).
-Eval vm_compute in ("<<<M20>>>" ++ check (runes_of_ascii "options	{ Logon = """ ++ [28040; 24687]%N ++ runes_of_ascii """
-; BodyLength= false ; }")).
-Eval vm_compute in ("<<<M973>>>" ++ check (runes_of_ascii "MetaData M {
-    u8 x `%`,
-    T t `%`,
+Eval vm_compute in ("<<<M1859>>>" ++ check (runes_of_ascii "packet A {
+    u8 x `a
+            b
+          c`,
 }")).
-Eval vm_compute in ("<<<M1194>>>" ++ check (runes_of_ascii "options { A = ""// no comment"" }
-// c
+Eval vm_compute in ("<<<M919>>>" ++ check (runes_of_ascii "MetaData M {
+    u8 x `a
+b`,
+    T t `a
+b`,
+}")).
+Eval vm_compute in ("<<<M1759>>>" ++ check (runes_of_ascii "packet
+A
+{ u8  x
+`d" ++ [12288]%N ++ runes_of_ascii "`
+    ,	// c" ++ [12288]%N ++ runes_of_ascii "
+  	}")).
+Eval vm_compute in ("<<<M357>>>" ++ check (runes_of_ascii "MetaData rootA
+{ options1 a1
+, }
+
 ")).
-Eval vm_compute in ("<<<M1415>>>" ++ check (runes_of_ascii "packet
-A {u8
-x `a
-    b
-  c` ,  }")).
-Eval vm_compute in ("<<<M745>>>" ++ check (runes_of_ascii "as u8 char float64 u16 : uint64")).
-Eval vm_compute in ("<<<M1951>>>" ++ check (runes_of_ascii "
-packet A
-
+Eval vm_compute in ("<<<M5>>>" ++ check (runes_of_ascii "MetaData float  { uint16 float , }")).
+Eval vm_compute in ("<<<M1689>>>" ++ check (runes_of_ascii "packet A {
+    u8 x `d" ++ [8232]%N ++ runes_of_ascii "`,// c" ++ [8232]%N ++ runes_of_ascii "
+}")).
+Eval vm_compute in ("<<<M1740>>>" ++ check (runes_of_ascii "packet A {
+    u8 x `
+    `,
+}")).
+Eval vm_compute in ("<<<M175>>>" ++ check (runes_of_ascii "MetaData Foo
     {
-	}
-// c" ++ [8239]%N)).
-Eval vm_compute in ("<<<M1860>>>" ++ check (runes_of_ascii "  packet	A{ } 
-// c x
- 
+    }
 ")).
-Eval vm_compute in ("<<<M1123>>>" ++ check (runes_of_ascii "
+Eval vm_compute in ("<<<M32>>>" ++ check (runes_of_ascii "MetaData
+packetx { }
+")).
+Eval vm_compute in ("<<<M1945>>>" ++ check (runes_of_ascii "
+packet u8x 
+{ }
+
+")).
+Eval vm_compute in ("<<<M1071>>>" ++ check (runes_of_ascii "// c" ++ [65279]%N ++ runes_of_ascii "
+packet A {
+}")).
+Eval vm_compute in ("<<<M1168>>>" ++ check (runes_of_ascii "packet
 // c
-MetaData tag { }")).
-Eval vm_compute in ("<<<M570>>>" ++ check (runes_of_ascii "MetaData u
-    { }")).
-Eval vm_compute in ("<<<M1075>>>" ++ check (runes_of_ascii "packet A {
-}
-// c" ++ [6158]%N)).
-Eval vm_compute in ("<<<M1170>>>" ++ check (runes_of_ascii "packet x
-// c
-{ }")).
-Eval vm_compute in ("<<<M755>>>" ++ check (runes_of_ascii "
-'" ++ [17]%N ++ runes_of_ascii "=" ++ [65533; 65533; 65533]%N ++ runes_of_ascii "M" ++ [65533; 65533; 1631]%N)).
-Eval vm_compute in ("<<<M757>>>" ++ check (runes_of_ascii "char")).
+x { }")).
+Eval vm_compute in ("<<<M741>>>" ++ check (runes_of_ascii "u16 zchar {")).
+Eval vm_compute in ("<<<M1069>>>" ++ check (runes_of_ascii "// c" ++ [65279]%N)).
